@@ -113,6 +113,12 @@ type State struct {
 	dead  bool
 	lockSnap *State // state right after the first guarded Lock on this path (for locked(e))
 	snaps    map[string]*State // named snapshots (loop heads for prev(e))
+	lazyHavoc []lazyHavoc      // whole-family havocs that also cover heap arrays not materialised yet
+}
+
+type lazyHavoc struct {
+	prefix string
+	wm     *Term
 }
 
 func (s *State) clone() *State {
@@ -133,6 +139,7 @@ func (s *State) clone() *State {
 	n.held = append([]heldLock(nil), s.held...)
 	n.notes = append([]string(nil), s.notes...)
 	n.lockSnap = s.lockSnap
+	n.lazyHavoc = s.lazyHavoc
 	if len(s.snaps) > 0 {
 		n.snaps = make(map[string]*State, len(s.snaps))
 		for k, v := range s.snaps {
@@ -198,6 +205,12 @@ func leafFacts(t *Term, spec LeafSpec) {
 	// Facts are timeless: they may only be attached to opaque terms (symbols, reads of memory, uninterpreted
 	// applications), never to values computed by the program (a computed length is not yet known to be valid at
 	// the make/slice site that checks it).
+	if t.op == "ite" && len(t.args) == 3 {
+		// a read from a merged heap: both alternatives are reads of memory
+		leafFacts(t.args[1], spec)
+		leafFacts(t.args[2], spec)
+		return
+	}
 	if t.op != "const" && t.op != "select" && t.op != "app" {
 		return
 	}
@@ -227,6 +240,13 @@ func valueFacts(v *Value) {
 	for i, l := range v.L {
 		if i < len(specs) {
 			leafFacts(l, specs[i])
+		}
+	}
+	// a slice with elements has a backing array
+	for i := 0; i+2 < len(v.L) && i+2 < len(specs); i++ {
+		if specs[i].Kind == "arr" && specs[i+2].Kind == "len" && v.L[i] != nil && v.L[i+2] != nil &&
+			!v.L[i].bound && !v.L[i+2].bound && opaque(v.L[i]) && opaque(v.L[i+2]) {
+			addFact(v.L[i+2], Implies(Gt(v.L[i+2], Int(0)), Gt(v.L[i], Int(0))))
 		}
 	}
 	// len <= cap for every slice header inside the value (also inside tuples and structs)
@@ -376,6 +396,15 @@ func (s *State) heapArr(name string, sort Sort) *Term {
 	if h, ok := s.heap[name]; ok {
 		return h
 	}
+	for i := len(s.lazyHavoc) - 1; i >= 0; i-- {
+		if lh := s.lazyHavoc[i]; strings.HasPrefix(name, lh.prefix) {
+			// first use after a whole-family havoc: the array is unknown, not the initial one
+			h := Const(fmt.Sprintf("Hz%d!%s", i, name), sort)
+			allocBoundFact(h, name, lh.wm)
+			s.heap[name] = h
+			return h
+		}
+	}
 	h := Const("H0!"+name, sort)
 	allocBoundFact(h, name, Const("wm0", SInt))
 	s.heap[name] = h
@@ -426,8 +455,15 @@ func heapKeys(base string, t types.Type, idxSorts ...Sort) []struct {
 	return out
 }
 
+// foreignPrivate: struct types a module function can never hold a reference to (unexported types of other modules);
+// their objects are not part of any caller-visible state.
+var foreignPrivate = map[string]bool{}
+
 func structFieldBase(st types.Type, i int) string {
 	u := under(st).(*types.Struct)
+	if n, ok := types.Unalias(st).(*types.Named); ok && n.Obj().Pkg() != nil && !n.Obj().Exported() && !isModulePkg(n.Obj().Pkg()) {
+		foreignPrivate["F:"+typeName(st)+"."] = true
+	}
 	return "F:" + typeName(st) + "." + u.Field(i).Name()
 }
 
@@ -724,6 +760,14 @@ func tryMerge(a, b *State) *State {
 	if a.frame.fn != b.frame.fn || a.frame.parent != b.frame.parent {
 		return nil
 	}
+	if len(a.lazyHavoc) != len(b.lazyHavoc) {
+		return nil
+	}
+	for i := range a.lazyHavoc {
+		if a.lazyHavoc[i] != b.lazyHavoc[i] {
+			return nil
+		}
+	}
 	if len(a.held) != len(b.held) || len(a.frame.defers) != len(b.frame.defers) || a.lockSnap != b.lockSnap {
 		return nil
 	}
@@ -771,6 +815,8 @@ func tryMerge(a, b *State) *State {
 	}
 	// Heaps that differ are not merged: ite-terms over (arrays of) arrays make the array theory reasoning of the
 	// solvers explode. Such states continue as separate paths.
+	// Exception: the two heaps are the same array updated at the same single location (two branches assigning one
+	// field of one object) -- the merged heap is that array updated with an ite of the values.
 	if mergeHeapStrict {
 		// a key that one state never touched still has its initial value there
 		for h, ta := range a.heap {
@@ -779,12 +825,16 @@ func tryMerge(a, b *State) *State {
 				tb = Const("H0!"+h, ta.sort)
 			}
 			if tb != ta {
-				return nil
+				if _, ok := mergeHeapTerm(ca, ta, tb); !ok {
+					return nil
+				}
 			}
 		}
 		for h, tb := range b.heap {
 			if _, ok := a.heap[h]; !ok && tb != Const("H0!"+h, tb.sort) {
-				return nil
+				if _, ok := mergeHeapTerm(ca, Const("H0!"+h, tb.sort), tb); !ok {
+					return nil
+				}
 			}
 		}
 	}
@@ -825,11 +875,19 @@ func tryMerge(a, b *State) *State {
 		if !ok {
 			tb = Const("H0!"+h, ta.sort)
 		}
-		n.heap[h] = Ite(ca, ta, tb)
+		if m, ok := mergeHeapTerm(ca, ta, tb); ok {
+			n.heap[h] = m
+		} else {
+			n.heap[h] = Ite(ca, ta, tb)
+		}
 	}
 	for h, tb := range b.heap {
 		if _, ok := a.heap[h]; !ok {
-			n.heap[h] = Ite(ca, Const("H0!"+h, tb.sort), tb)
+			if m, ok := mergeHeapTerm(ca, Const("H0!"+h, tb.sort), tb); ok {
+				n.heap[h] = m
+			} else {
+				n.heap[h] = Ite(ca, Const("H0!"+h, tb.sort), tb)
+			}
 		}
 	}
 	n.wm = Ite(ca, a.wm, b.wm)
@@ -857,6 +915,59 @@ func tryMerge(a, b *State) *State {
 		}
 	}
 	return n
+}
+
+// mergeHeapTerm merges two versions of one heap array without an array-sorted ite, when they are one array updated
+// at one location: store(h,i,x) / store(h,i,y), store(h,i,x) / h, h / store(h,i,y). ca selects the first version.
+func mergeHeapTerm(ca, ta, tb *Term) (*Term, bool) {
+	if ta == tb {
+		return ta, true
+	}
+	isStore := func(t *Term) bool { return t.op == "store" && len(t.args) == 3 }
+	mergeVal := func(x, y *Term) (*Term, bool) {
+		if x == y {
+			return x, true
+		}
+		if _, _, isArr := arrayParts(x.sort); isArr {
+			// nested (two-level) heaps: merge the inner arrays the same way
+			return mergeHeapTerm(ca, x, y)
+		}
+		return Ite(ca, x, y), true
+	}
+	switch {
+	case isStore(ta) && isStore(tb) && ta.args[0] == tb.args[0] && ta.args[1] == tb.args[1]:
+		if v, ok := mergeVal(ta.args[2], tb.args[2]); ok {
+			return Store(ta.args[0], ta.args[1], v), true
+		}
+	case isStore(ta) && ta.args[0] == tb:
+		if v, ok := mergeVal(ta.args[2], Select(tb, ta.args[1])); ok {
+			return Store(tb, ta.args[1], v), true
+		}
+	case isStore(tb) && tb.args[0] == ta:
+		if v, ok := mergeVal(Select(ta, tb.args[1]), tb.args[2]); ok {
+			return Store(ta, tb.args[1], v), true
+		}
+	}
+	// two short update chains over opaque arrays (typically: two different havocs): an ite of the arrays; every read
+	// from it is turned into an ite of reads by Select
+	if shallowHeap(ta, 3) && shallowHeap(tb, 3) {
+		return Ite(ca, ta, tb), true
+	}
+	return nil, false
+}
+
+func shallowHeap(t *Term, depth int) bool {
+	switch {
+	case t.op == "const":
+		return true
+	case depth == 0:
+		return false
+	case t.op == "store" && len(t.args) == 3:
+		return shallowHeap(t.args[0], depth-1)
+	case t.op == "ite" && len(t.args) == 3:
+		return shallowHeap(t.args[1], depth-1) && shallowHeap(t.args[2], depth-1)
+	}
+	return false
 }
 
 func flattenPC(pc []*Term) []*Term {
